@@ -1,5 +1,5 @@
 """C01 -- canonical output is well-formed ASCII in every component."""
-from .common import run_progs
+from .common import run_progs, run_value_machine
 from .quoterlevel import run_quoter_level
 
 FINISH = dict(rule="R1 MC_Quoters (both transducer models write only well-formed text); R2 every enumerated text through the "
@@ -10,5 +10,6 @@ FIELDS = ["str", "val", "raw_user", "raw_password", "raw_path", "raw_query_strin
 
 def run(out, sc, tier, seed):
     run_quoter_level(out, sc, tier, seed, "C01")
+    run_value_machine(out, sc, "C01", tier, fields=FIELDS)
     n = 12000 if tier == "quick" else 300000
     run_progs(out, sc, "C01", {"gen": "progs", "n": n, "seed": seed, "surrogate_p": 0.1, "fields": FIELDS}, "progs")
